@@ -156,14 +156,14 @@ def run_c20(ctx):
     import gen_hist
     from drive_hist import type_correct_args
     for i in range(80 if quick else 1500):
-        hc = gen_hist.gen_case(ctx.seed, 85000 + i)
+        hc = gen_hist.gen_case(ctx.seed, 85000 + i)  # (case content seed)
         crng = random.Random(ctx.seed * 31 + i)
         calls = []
         for _ in range(2):
             for name, params in hc["acts"]:
                 calls.append({"act": name, "args": type_correct_args(crng, params, hc["objs"]), "s": 0, "mode": "ground"})
         crng.shuffle(calls)
-        cases.append({"id": 85000 + i, "tree": hc["dom"], "objs": hc["objs"],
+        cases.append({"id": 700000 + i, "tree": hc["dom"], "objs": hc["objs"],
                       "states": [gen_core.random_state(crng, hc["objs"])], "calls": calls})
     tf = ctx.drive("core", cases, hashseeds=hashseeds, opts={"snaps": False})
     ctx.validate(tf, {c["id"]: c for c in cases}, driver="core", opts={"snaps": False})
@@ -205,7 +205,7 @@ def run_c18(ctx):
         cases.append(c)
     # several (in)equalities between the parameters under permutations / chains of their names
     for i in range(100 if quick else 2000):
-        c = gen_core.gen_eq_case(ctx.seed, 95000 + i)
+        c = gen_core.gen_eq_case(ctx.seed, 990000 + i)
         c["rename"] = gen_core.rename_map(rng, _params_of(c["tree"]), kinds=("perm", "perm", "chain"))
         c["ground"] = False
         cases.append(c)
